@@ -357,10 +357,10 @@ func checkSerialisation(p *Prog, r *Report, fill *ssa.Function) {
 			okOverride := false
 			for _, f := range s.Facts {
 				bo, isB := f.Cond.(*ssa.BinOp)
-				if !isB || bo.Op != token.EQL {
+				if !isB || (bo.Op != token.EQL && bo.Op != token.NEQ) {
 					continue
 				}
-				if k, isC := constInt(bo.Y); isC && k == 0 && !f.Truth {
+				if k, isC := constInt(bo.Y); isC && k == 0 && (bo.Op == token.EQL) != f.Truth {
 					if b, fld, isF := fieldLoad(s.Resolve(bo.X)); isF && fld == "Length" && b == ipLayer {
 						okOverride = true
 					}
